@@ -322,32 +322,47 @@ var limInt = new(big.Int).Lsh(big.NewInt(1), 256).String()
 var limDec = new(big.Int).Lsh(big.NewInt(1), 315).String()
 
 // fresh symbolic value of a Go type (validity: stored amounts are non-negative and within the library's width)
+// noteRec: while zzvp.AnyOf runs, every leaf symbol it creates is appended to the path's input sequence (native replay
+// rebuilds the same value by walking the type in the same order)
+func (e *Exec) noteRec(kind, name string) {
+	if e.recSink != nil {
+		*e.recSink = append(*e.recSink, kind+":"+name)
+	}
+}
+
 func (e *Exec) anyOf(s *State, t types.Type, hint string) Val {
 	t = types.Unalias(t)
 	switch t.String() {
 	case "cosmossdk.io/math.Int", "cosmossdk.io/math.LegacyDec":
 		n := e.sol.fresh("rec_"+hint, false)
 		e.sol.axiom("(and (>= " + n + " 0) (< " + n + " " + limInt + "))")
+		e.noteRec("rbig", n)
 		return BigV{T: n}
 	case "time.Time":
 		n := e.sol.fresh("time_"+hint, false)
 		e.sol.axiom("(and (>= " + n + " 0) (< " + n + " 4000000000))")
+		e.noteRec("rtime", n)
 		return TimeV{T: n}
 	case "time.Duration":
 		n := e.sol.fresh("dur_"+hint, false)
 		e.sol.axiom("(and (>= " + n + " 0) (< " + n + " 4000000000000000000))")
+		e.noteRec("rdur", n)
 		return Sym{S: n}
 	case "github.com/cosmos/cosmos-sdk/types.Coin":
 		d := SymStr{T: e.sol.fresh("str_denom", false)}
 		n := e.sol.fresh("rec_coin_amount", false)
 		e.sol.axiom("(and (>= " + n + " 0) (< " + n + " " + limInt + "))")
+		e.noteRec("rstr", d.T)
+		e.noteRec("rbig", n)
 		return StructV{[]Val{d, BigV{T: n}}}
 	}
 	switch u := t.Underlying().(type) {
 	case *types.Basic:
 		switch {
 		case u.Info()&types.IsBoolean != 0:
-			return Sym{Bool: true, S: e.sol.fresh("rec_"+hint, true)}
+			bn := e.sol.fresh("rec_"+hint, true)
+			e.noteRec("rbool", bn)
+			return Sym{Bool: true, S: bn}
 		case u.Info()&types.IsInteger != 0:
 			n := e.sol.fresh("rec_"+hint, false)
 			bits, signed, _ := intKind(t)
@@ -357,11 +372,15 @@ func (e *Exec) anyOf(s *State, t types.Type, hint string) Val {
 				lo = new(big.Int).Neg(hi)
 			}
 			e.sol.axiom("(and (>= " + n + " " + smtInt(lo) + ") (< " + n + " " + smtInt(hi) + "))")
+			e.noteRec("rint", n)
 			return Sym{S: n}
 		case u.Info()&types.IsString != 0:
-			return SymStr{T: e.sol.fresh("str_"+hint, false)}
+			sn := e.sol.fresh("str_"+hint, false)
+			e.noteRec("rstr", sn)
+			return SymStr{T: sn}
 		case u.Info()&types.IsFloat != 0:
 			n := e.sol.fresh("flt_"+hint, false)
+			e.noteRec("rflt", n)
 			return FloatV{T: "(to_real " + n + ")"}
 		}
 	case *types.Struct:
@@ -372,9 +391,12 @@ func (e *Exec) anyOf(s *State, t types.Type, hint string) Val {
 		return StructV{f}
 	case *types.Slice:
 		if b, ok := u.Elem().Underlying().(*types.Basic); ok && b.Kind() == types.Uint8 {
-			return BytesV{Segs: []Seg{{Kind: "str", T: e.sol.fresh("bytes_"+hint, false)}}}
+			bn := e.sol.fresh("bytes_"+hint, false)
+			e.noteRec("rbytes", bn)
+			return BytesV{Segs: []Seg{{Kind: "str", T: bn}}}
 		}
 		L := e.sliceL
+		e.noteRec("rcap", fmt.Sprint(L))
 		if L == 0 {
 			return SliceV{}
 		}
@@ -389,6 +411,7 @@ func (e *Exec) anyOf(s *State, t types.Type, hint string) Val {
 		e.hmu.Unlock()
 		n := e.sol.fresh("len_"+hint, false)
 		e.sol.axiom(fmt.Sprintf("(and (>= %s 0) (<= %s %d))", n, n, L))
+		e.noteRec("rlen", n)
 		return SliceV{ID: id, Len: L, Cap: L, SymLen: n}
 	case *types.Pointer:
 		if _, isStruct := u.Elem().Underlying().(*types.Struct); isStruct && !strings.Contains(u.Elem().String(), "codec/types.Any") {
